@@ -18,7 +18,9 @@ fn redir(t: &str, dir: &str) -> Redirection {
     }
 }
 
-fn apply_ops(mut e: Exec, ops: &[&str], dir: &str) -> Exec {
+/// `keep` collects the other copies made by clone(): they stay alive until the terminator has run (a clone
+/// must be independent of its source *while both exist*)
+fn apply_ops(mut e: Exec, ops: &[&str], dir: &str, keep: &mut Vec<Exec>) -> Exec {
     for op in ops {
         let (k, v) = op.split_once(':').unwrap_or((op, ""));
         e = match k {
@@ -69,14 +71,14 @@ fn apply_ops(mut e: Exec, ops: &[&str], dir: &str) -> Exec {
                 // continue with the clone; the original receives decoy edits and is dropped
                 let c = e.clone();
                 let decoy = e.arg("DECOY").env("DECOY", "1").env_remove("A");
-                drop(decoy);
+                keep.push(decoy);
                 c
             }
             "clonekeep" => {
                 // continue with the original; the clone receives decoy edits and is dropped
                 let c = e.clone();
                 let decoy = c.arg("DECOY").env("DECOY", "1").env_clear();
-                drop(decoy);
+                keep.push(decoy);
                 e
             }
             _ => panic!("bad op {}", op),
@@ -97,9 +99,10 @@ fn run_case(idx: usize, line: &str, dir: &str, out: &mut Out) {
         .map(|(k, v)| format!("{}:{}", crate::proto::hex(k.as_bytes()), crate::proto::hex(v.as_bytes())))
         .collect();
     out.line(&format!("BASE {}", base.join(",")));
+    let mut keep: Vec<Exec> = vec![];
     let built = std::panic::catch_unwind(std::panic::AssertUnwindSafe(|| {
         let e = if shell { Exec::shell(os(&cmd[3..])) } else { Exec::cmd(os(cmd)) };
-        apply_ops(e, &ops, dir)
+        apply_ops(e, &ops, dir, &mut keep)
     }));
     let e = match built {
         Ok(e) => e,
@@ -121,6 +124,7 @@ fn run_case(idx: usize, line: &str, dir: &str, out: &mut Out) {
         _ => panic!("bad terminator"),
     }));
     let (log, _, _) = trace::stop();
+    drop(keep);
     match r {
         Ok(ok) => out.line(&format!("RES {}", if ok { "ok" } else { "err" })),
         Err(_) => out.line("RES panic-term"),
